@@ -53,7 +53,9 @@ SPEC_ENUMS = {
     'libcnb_data::sbom::SbomFormat': {'CycloneDxJson': 'application/vnd.cyclonedx+json', 'SpdxJson': 'application/spdx+json', 'SyftJson': 'application/vnd.syft+json'},
     'libcnb_data::package_descriptor::PlatformOs': {'Linux': 'linux', 'Windows': 'windows'},
 }
-# predicate -> (the Deserialize defaults it pairs with, description)
+# predicate -> (the Deserialize defaults it was confirmed by hand to pair with, the value class it is true for).
+# Only the class is an input of R2 (cross-check of H.truth_class on the confirmed predicates); the pairing itself is
+# decided on value classes, see H.truth_class / H.default_class
 PAIRS = {
     'std::vec::Vec::<T, A>::is_empty': (('std::default::Default::default', '<std::vec::Vec<T> as std::default::Default>::default'), 'empty'),
     'std::ops::Not::not': (('std::default::Default::default', '<bool as std::default::Default>::default'), 'false'),
@@ -91,21 +93,28 @@ def run(ctx, rep):
             if not k.skip_pred:
                 continue
             subj = '%s/%s' % (t, key)
+            # what the predicate is true for, as a value class (H.truth_class): the std predicates of PAIRS are axioms,
+            # a workspace function (private helper, is_app) is classified by what it computes from its argument
             pair = PAIRS.get(k.skip_pred)
-            if pair is None:
+            pcls = H.truth_class(prog, sl, k.skip_pred)
+            if pcls is None or (pair is not None and H.class_str(pcls) != pair[1]):
                 rep.unproven('R2', subj, where, 'skip predicate %s is not a recognised idiom' % k.skip_pred)
                 continue
             # the predicate must look at the same field
             arg_ok = k.skip_arg is not None and k.skip_arg.endswith('.' + (k.field or '?'))
             ok = arg_ok
-            why = 'skipped when %s(self.%s)' % (k.skip_pred.split('::')[-1], k.field)
+            why = 'skipped when %s(self.%s), i.e. when it is %s' % (k.skip_pred.split('::')[-1], k.field, H.class_str(pcls))
             if de is not None and de['kind'] == 'struct':
                 dk = de['keys'].get(key)
-                ok = ok and dk is not None and dk.required is False and dk.default in pair[0]
-                why += '; reads back as default %s (%s)' % (pair[1], dk.default if dk else 'key missing in Deserialize')
+                # ... and the Deserialize default of that key is exactly that value (H.default_class: the std
+                # constructors by the field type, hand-written / derived Default impls and `default = "fn"` by
+                # the value they return)
+                dcls = H.default_class(prog, sl, dk.default, dk.ty) if dk is not None else None
+                ok = ok and dk is not None and dk.required is False and dcls is not None and dcls == pcls
+                why += '; reads back as default %s (%s)' % (H.class_str(dcls), dk.default if dk else 'key missing in Deserialize')
             else:
                 # write-only type: a skipped key must mean "spec default" for an external reader
-                ok = ok and pair[1] == 'empty'
+                ok = ok and pcls == ('empty',)
             rep.check(ok, 'R2', subj, where, why, 'skip/default mismatch for key %s: %s' % (key, why))
     rep.floor('R1', 'serialized_structs', n)
     for t, want in SPEC_ENUMS.items():
@@ -121,10 +130,20 @@ def run(ctx, rep):
     rep.analysed(ia)
     trues = []
     for d in ia.whole_defs(0):
+        if d[1] in ia.reachable(0) and not (d[0] == 'stmt' and d[3]['r'] == 'use' and 'k' in d[3]['o'] and isinstance((d[3]['o']['k'].get('v') or {}).get('bool'), bool)):
+            trues.append('computed')    # a result that is not a boolean literal: not decided by the variant alone
         if d[0] == 'stmt' and d[3]['r'] == 'use' and 'k' in d[3]['o'] and (d[3]['o']['k'].get('v') or {}).get('bool') is True:
             cds = [c for c in conditions(ia, d[1], sl) if c.kind == 'variant']
             trues.append(cds[-1].outcome if cds else None)
-    rep.check(trues == [frozenset({'App'})], 'R2', 'is_app', '%s:%d' % (ia.file, ia.line), 'is_app() is true exactly for App', 'is_app() is true for %s' % trues)
+    # (decided on the returned value — matches! / exhaustive match / a private helper are one select; the syntactic
+    # reading of the `true` stores only when the value has no such normal form)
+    icls = H.truth_class(prog, sl, ia.path)
+    if icls is not None:
+        is_app_ok = icls == ('variant', 'libcnb_data::launch::WorkingDirectory', frozenset({'App'}))
+        trues = H.class_str(icls)
+    else:
+        is_app_ok = trues == [frozenset({'App'})]
+    rep.check(is_app_ok, 'R2', 'is_app', '%s:%d' % (ia.file, ia.line), 'is_app() is true exactly for App', 'is_app() is true for %s' % (trues,))
     # ---- R3 ------------------------------------------------------------------------------------------
     ws = prog.find(r'^<libcnb_data::launch::WorkingDirectory as .*Serialize>::serialize$')
     if len(ws) != 1:
@@ -140,10 +159,12 @@ def run(ctx, rep):
             if not cds or len(cds[-1].outcome) != 1:
                 continue
             arm = next(iter(cds[-1].outcome))
-            if c.decl.endswith('Serializer::serialize_str'):
-                arms[arm] = ('str', strip(sl.operand(f, c.args[1])))
+            if c.decl.endswith(('Serializer::serialize_str', 'Serializer::collect_str')):
+                arms[arm] = ('str', strip(sl.inline_deep(sl.operand(f, c.args[1]))))
             elif c.decl.endswith('Serialize::serialize'):
-                arms[arm] = ('delegate', strip(sl.operand(f, c.args[0])))
+                dv = strip(sl.inline_deep(sl.operand(f, c.args[0])))
+                # a string literal's own Serialize writes it with serialize_str: `".".serialize(s)` is `s.serialize_str(".")`
+                arms[arm] = ('str' if dv[0] == 'const' and isinstance(dv[1], str) else 'delegate', dv)
         if not arms:
             # one serialising call fed by a per-variant table (possibly computed by a private helper)
             for c in f.calls:
